@@ -1,6 +1,7 @@
 package main
 
 import (
+	"strings"
 	"encoding/json"
 	"fmt"
 	"sort"
@@ -188,6 +189,33 @@ func runC15(prop string, res *Result, pool *DrvPool, r *Rng) {
 		}
 		if jsonStr(eraseNames(on.Snap)) != jsonStr(off.Snap) {
 			res.Violation(Finding{Stream: "names", What: "naming changed something other than argument names", Op: op, Expected: off.Snap, Got: on.Snap})
+		}
+		// a snapshot returned together with an error (a later line that does not parse, a reader
+		// that fails inside the dump) is a snapshot too: with naming on it is named like any other
+		if i%3 == 0 && len(gs) >= 2 {
+			var bop *ScanOp
+			switch r.Intn(3) {
+			case 0:
+				bop = &ScanOp{Op: "scan", Data: hb(txt + "goroutine 999 [running]:\nmain.broken(0xzz)\n"), Sched: []int{}, Final: "eof"}
+			case 1:
+				bop = &ScanOp{Op: "scan", Data: hb(txt + "goroutine 999 [running]:\nnot a function line\n"), Sched: []int{}, Final: "eof"}
+			default:
+				k := len(txt)/2 + r.Intn(len(txt)/2)
+				bop = &ScanOp{Op: "scan", Data: hb(txt[:k]), Sched: genSched(r, k), Final: "reader:5", WithData: r.Bool()}
+			}
+			offOp, onOp := *bop, *bop
+			onOp.Names = true
+			bon, boff := implScan(&onOp), implScan(&offOp)
+			if bon.Snap != nil && boff.Snap != nil && bon.Err != "" && bon.Err != "eof" {
+				res.Count("named-with-error:" + strings.SplitN(bon.Err, ":", 2)[0])
+				if w := checkNames(bon.Snap); w != "" {
+					res.Violation(Finding{Stream: "names", What: "snapshot returned together with the error " + bon.Err + ": " + w, Op: &onOp, Got: bon.Snap})
+				}
+				if jsonStr(eraseNames(bon.Snap)) != jsonStr(boff.Snap) {
+					res.Violation(Finding{Stream: "names", What: "snapshot returned together with the error " + bon.Err + ": naming changed something other than argument names", Op: &onOp, Expected: boff.Snap, Got: bon.Snap})
+				}
+				modelScan(pool, res, &onOp, bon, nil)
+			}
 		}
 		// model: nameArguments on the unnamed snapshot must give the named one
 		nop := map[string]interface{}{"op": "names", "gs": off.Snap}
